@@ -20,6 +20,26 @@ CHECKS = {
                      "is represented by up to 7 points (a cubic has 4 degrees of freedom).",
                 note="Trusts the Python data-file readers and numpy; 1e-7 upper-end band and duplicated abscissae are don't-care zones as "
                      "documented in DESIGN.md; configuration K depends on tools/kissel_regen.py."),
+    "C03": dict(level="exploration", engine="ENUM", ref="4/C03",
+                technique="exhaustive enumeration of every exported function over full discrete domains x structured continuous alphabet, contract oracle",
+                text="Every value-returning XRL_EXTERN prototype (table generated from the headers, an unmapped prototype fails the check closed) is driven "
+                     "through its full discrete argument space times a structured alphabet of continuous and string arguments, in three calling modes "
+                     "(empty slot, no slot, pre-filled slot); the oracle is the error/value contract itself, so no reference values are needed. "
+                     "1.5e8 (quick) calls per run; crashes are contained and bisected to the failing tuple.",
+                note="Continuous arguments are represented by table ends, edges +-eps, specials and angle grids, not covered; NaN/Inf arguments and "
+                     "allocation failure are outside the property; MAY_VANISH functions are exempt from the 'never 0' clause (listed in checks/c03.py)."),
+    "C07": dict(level="exploration", engine="ENUM", ref="4/C07",
+                technique="bounded-exhaustive grammar and mutation enumeration of the real parser against an exact-arithmetic reference parser",
+                text="All formulas up to a unit bound over prefix-colliding alphabets (nesting <= 3), all symbols and ordered pairs, all permutations of "
+                     "top-level terms, every single-byte mutation (bytes 1..255) of a valid corpus, parsed by the real library under a real comma-decimal "
+                     "locale and compared with an independent recursive-descent parser in exact rationals (three-way classification accept / reject / unspecified).",
+                note="Strings outside the canonical grammar that match none of the rejection classes named in the property are UNSPECIFIED (contract only). "
+                     "Formulas beyond the unit bound are represented by long repeated-unit strings only."),
+    "C10": dict(level="exploration", engine="ENUM", ref="4/C10",
+                technique="exhaustive enumeration of Z x group macros against member means recomputed from the public single-line API",
+                text="Complete enumeration of Z in [-3,125] x the 13 group line macros (energies) and 4 group macros (rates) in both configurations; group "
+                     "membership is derived from macro names and the published Siegbahn aliases, member values come from the public single-line API.",
+                note="Differential oracle: an error common to a member line and its group is invisible here (C01 decides members). KO/KP pseudo members: two readings accepted."),
 }
 NOT_YET = {}
 ALL = ["C%02d" % i for i in range(1, 21)]
